@@ -8,6 +8,7 @@ by invariants, calls use contracts only.
 """
 import ast
 import itertools
+import re
 import z3
 
 from . import prelude as P
@@ -201,6 +202,12 @@ class Engine:
         self._ghost_axioms_done.add(name)
         f, ptys, rty, g = self.ghost_sym(name)
         ev = FuncVerifier(self, None, None, None, ghost=g)
+        if zsort(rty) == P.V and ptys and g.typed_result:
+            # opt-in (@ghost(typed_result=True)): the result has its declared type for all arguments
+            vs = [z3.Const('gt_%d' % i, zsort(t)) for i, t in enumerate(ptys)]
+            tfact = ev.typed_fact(f(*vs), rty)
+            if not z3.is_true(tfact):
+                self.global_axioms.append(('ghost:%s/result-type' % name, z3.ForAll(vs, tfact, patterns=[f(*vs)])))
         for rn, rexpr in g.rules + g.axioms:
             st = State()
             sv = ev.ev(rexpr, st, spec=True)
@@ -223,6 +230,11 @@ class Engine:
 
 BUILTIN_EXC = ('KeyError', 'IndexError', 'Exception', 'KeyboardInterrupt', 'ValueError', 'TypeError',
                'AssertionError', 'NotImplementedError', 'AttributeError')
+
+
+class Contract_stub:
+    def __init__(self, modifies):
+        self.modifies = modifies
 
 
 class LoopCtl:
@@ -576,6 +588,15 @@ class FuncVerifier:
             return sv
         self.err(node, 'unknown name %r' % name)
 
+    def global_key(self, name):
+        mod = self.module.name if self.module else None
+        for cand in ((mod + '.' + name) if mod else None, name):
+            if cand and cand in self.E.sc.globals:
+                return cand
+        if self.module and name in self.module.imports and self.module.imports[name] in self.E.sc.globals:
+            return self.module.imports[name]
+        return None
+
     def global_value(self, name, st):
         key = None
         mod = self.module.name if self.module else None
@@ -664,6 +685,8 @@ class FuncVerifier:
                                'fstr%d' % node.lineno)
 
     def opaque_str(self, st, args, tagname):
+        tagname = re.sub(r'^(join|format|mod|strip|lstrip|rstrip|replace|lower|upper|center)\d+$', r'\1', tagname) \
+            + ('_%d' % len(args) if args else '')
         f = z3.Function('fmt!' + tagname, *([P.V] * len(args) + [P.V])) if args else None
         t = f(*[box(a) for a in args]) if args else self.E.fresh(tagname, STR).term
         sv = SV(t, STR)
@@ -718,6 +741,14 @@ class FuncVerifier:
 
     def ev_IfExp(self, node, st, spec):
         c = self.truthy(self.ev(node.test, st, spec))
+        if not spec and not self.binders and not self.bound_env:
+            # branches may have effects (calls): evaluate them on separate states and join
+            s1, s2 = st.copy(c), st.copy(simp_not(c))
+            a = self.ev(node.body, s1, spec)
+            b = self.ev(node.orelse, s2, spec)
+            self.merge_into(st, [s1, s2], conds=[c, simp_not(c)])
+            ty = T.join(a.ty, b.ty)
+            return SV(z3.If(c, coerce(a, ty).term, coerce(b, ty).term), ty)
         saved = st.pc
         if self.binders:
             self.binders.append(([], c))
@@ -774,7 +805,18 @@ class FuncVerifier:
         a = self.ev(node.left, st, spec)
         b = self.ev(node.right, st, spec)
         op = node.op
+        for side in (a, b):
+            if side.ty.is_opt and side.ty.args[0].kind == 'int':
+                self.safety(st, 'none-deref', side.term != P.none, node, spec)
+        if a.ty.is_opt and a.ty.args[0].kind == 'int':
+            a = coerce(a, INT)
+        if b.ty.is_opt and b.ty.args[0].kind == 'int':
+            b = coerce(b, INT)
         ka, kb = a.ty.kind, b.ty.kind
+        if isinstance(op, ast.Add) and (ka == 'str' or kb == 'str'):
+            for side in (a, b):
+                if side.ty.is_opt:
+                    self.safety(st, 'none-deref', side.term != P.none, node, spec)
         if ka in ('int', 'bool') and kb in ('int', 'bool'):
             x, y = coerce(a, INT).term, coerce(b, INT).term
             if isinstance(op, ast.Add):
@@ -833,6 +875,9 @@ class FuncVerifier:
     def ev_Subscript(self, node, st, spec):
         base = self.ev(node.value, st, spec)
         bt = base.ty
+        if self.is_record(bt.strip_opt()) and isinstance(node.slice, ast.Constant) and isinstance(node.slice.value, str):
+            fake = ast.copy_location(ast.Attribute(value=node.value, attr=node.slice.value, ctx=ast.Load()), node)
+            return self.ev_Attribute(fake, st, spec)
         if bt.is_opt:
             self.safety(st, 'none-deref', base.term != P.none, node, spec)
             bt = bt.strip_opt()
@@ -889,10 +934,48 @@ class FuncVerifier:
             return self.E.parse_ty(d['*'])
         self.err(node, 'class %s has no declared field %s' % (cname, attr))
 
+    @staticmethod
+    def heap_key(attr, fty):
+        k = fty.kind
+        return attr if k not in ('int', 'bool') else attr + ('#i' if k == 'int' else '#b')
+
     def heap_array(self, st, attr, fty):
-        if attr not in st.heap:
-            st.heap[attr] = z3.Const('H_%s!0' % attr, z3.ArraySort(P.V, zsort(fty)))
-        return st.heap[attr]
+        key = self.heap_key(attr, fty)
+        if key not in st.heap:
+            st.heap[key] = z3.Const('H_%s!0' % key, z3.ArraySort(P.V, zsort(fty)))
+        return st.heap[key]
+
+    def field_variants(self, attr):
+        """the distinct (heap key, type) variants under which attribute `attr` is declared"""
+        d = self.E.field_types.get(attr) or {}
+        out = {}
+        for t in d.values():
+            ty = self.E.parse_ty(t)
+            out.setdefault(self.heap_key(attr, ty), ty)
+        return list(out.items())
+
+    def modifies_keys(self, contract):
+        """heap keys a contract may modify.  '.attr' = every variant of attr; '.Class.attr' = that class's variant"""
+        out = set()
+        for m in contract.modifies:
+            if not m.startswith('.'):
+                continue
+            parts = m[1:].split('.')
+            if len(parts) == 1:
+                if parts[0] == '*':
+                    out.add('*')
+                for key, _ in self.field_variants(parts[0]):
+                    out.add(key)
+            else:
+                cname, attr = parts
+                t = (self.E.field_types.get(attr) or {}).get(cname)
+                if t is None:
+                    raise EngineError('modifies %s: class %s has no declared field %s' % (m, cname, attr))
+                out.add(self.heap_key(attr, self.E.parse_ty(t)))
+        return out
+
+    def is_record(self, ty):
+        return ty.is_obj and any(c in self.E.sc.dict_records for c in ty.name.split('|'))
 
     def ev_Attribute(self, node, st, spec):
         # module constant e.g. ast.ClassDeclaration handled by callers; here: object field read
@@ -1090,6 +1173,11 @@ class FuncVerifier:
         if isinstance(target, ast.Subscript):
             base = self.ev(target.value, st, False)
             bt = base.ty
+            if self.is_record(bt.strip_opt()) and isinstance(target.slice, ast.Constant) \
+                    and isinstance(target.slice.value, str):
+                fake = ast.copy_location(ast.Attribute(value=target.value, attr=target.slice.value, ctx=ast.Store()), target)
+                self.assign_into(fake, sv, st)
+                return
             if bt.is_opt:
                 self.safety(st, 'none-deref', base.term != P.none, target, False)
                 bt = bt.strip_opt()
@@ -1127,12 +1215,13 @@ class FuncVerifier:
     def heap_write(self, st, base, attr, fty, sv, node):
         from .heap import frame_check
         frame_check(self, st, base, attr, node)
-        if self.c is not None and ('.' + attr) not in self.c.modifies and '.*' not in self.c.modifies:
+        mk = self.modifies_keys(self.c) if self.c is not None else {'*'}
+        if self.heap_key(attr, fty) not in mk and '*' not in mk:
             # a write to a field the contract does not list: callers would not havoc it
             from .heap import ALLOC0
             self.oblige(st, 'frame[modifies .%s]' % attr, z3.Not(z3.Select(ALLOC0, base.term)), node)
         arr = self.heap_array(st, attr, fty)
-        st.heap[attr] = z3.Store(arr, base.term, sv.term)
+        st.heap[self.heap_key(attr, fty)] = z3.Store(arr, base.term, sv.term)
         st.heap_version += 1
 
     def ex_Assign(self, s, st):
@@ -1238,9 +1327,14 @@ class FuncVerifier:
         s2 = st.copy(simp_not(c))
         self.exec_block(s.body, s1)
         self.exec_block(s.orelse, s2)
-        self.merge_into(st, [s1, s2])
+        self.merge_into(st, [s1, s2], conds=[c, simp_not(c)])
 
-    def merge_into(self, st, states):
+    def merge_into(self, st, states, conds=None):
+        if conds is not None:
+            # two-way join of an if: select on the (small) branch condition instead of the full path conditions
+            sel = {id(x): cnd for x, cnd in zip(states, conds)}
+        else:
+            sel = {}
         live = [x for x in states if not x.dead]
         if not live:
             st.dead = True
@@ -1258,9 +1352,12 @@ class FuncVerifier:
         env = {}
         for n in names:
             have = [(x, x.env[n]) for x in live if n in x.env]
-            if len(have) < len(live):
-                # defined on some paths only: keep the value of the paths that define it
-                pass
+            if len(have) < len(live) and n.startswith('glob:'):
+                # a global first touched inside one branch: the other paths still hold its value at function entry
+                key = n[len('glob:'):]
+                gty = self.E.parse_ty(self.E.sc.globals[key])
+                init = SV(self.E.abs_consts[key], gty)
+                have = [(x, x.env.get(n, init)) for x in live]
             ty = have[0][1].ty
             for _, v in have[1:]:
                 ty = T.join(ty, v.ty)
@@ -1273,7 +1370,7 @@ class FuncVerifier:
                 continue
             res = terms[-1]
             for (x, _), t in reversed(list(zip(have[:-1], terms[:-1]))):
-                res = z3.If(x.pc, t, res)
+                res = z3.If(sel.get(id(x), x.pc), t, res)
             env[n] = SV(res, ty)
         heap = {}
         fields = []
@@ -1284,13 +1381,15 @@ class FuncVerifier:
         for f in fields:
             arrs = [(x, x.heap.get(f)) for x in live]
             base = next(a for _, a in arrs if a is not None)
-            arrs = [(x, a if a is not None else base) for x, a in arrs]
+            # a state that never touched this field still sees the array of the function's pre-state
+            init = z3.Const('H_%s!0' % f, base.sort())
+            arrs = [(x, a if a is not None else init) for x, a in arrs]
             if all(a.eq(arrs[0][1]) for _, a in arrs[1:]):
                 heap[f] = arrs[0][1]
                 continue
             res = arrs[-1][1]
             for x, a in reversed(arrs[:-1]):
-                res = z3.If(x.pc, a, res)
+                res = z3.If(sel.get(id(x), x.pc), a, res)
             heap[f] = res
         pc = live[0].pc
         for x in live[1:]:
